@@ -294,7 +294,7 @@ func (x *Exec) selectStmt(s *ast.SelectStmt, st *State, cx *Ctx, k func(*State))
 		case nil:
 			// the default case: an environment assumption may exclude it (e.g. "data is waiting")
 			for _, ev := range x.sp.Events {
-				if ev.Kind == "default" && ev.Pkg == x.fn.pkgPath() && (ev.In == "" || strings.HasSuffix(x.fn.key, "."+ev.In)) {
+				if ev.Kind == "default" && ev.Pkg == x.fn.pkgPath() && (ev.In == "" || strings.HasSuffix(x.fn.key, "."+ev.In) || strings.HasSuffix(x.curInlineKey, "."+ev.In)) {
 					x.runEvent(b, cc, ev, map[string]Val{})
 				}
 			}
@@ -433,6 +433,62 @@ func (x *Exec) spawn(st *State, s *ast.GoStmt) {
 	key := funcKeyOf(fn)
 	spec := x.sp.Funcs[key]
 	fi := x.prog.funcs[key]
+	if spec == nil && fi != nil && fi.decl.Body != nil {
+		// a goroutine without contract: its body is not verified (listed as an assumption) - unless
+		// it operates on a channel the ghost accounting of this goroutine watches. The ghost state
+		// is sequential per goroutine; a delivery made by another goroutine at an undetermined
+		// moment is outside every proof that rests on it.
+		hooked := 0
+		seen := map[*FuncInfo]bool{}
+		var scan func(f *FuncInfo, depth int)
+		scan = func(f *FuncInfo, depth int) {
+			if seen[f] || depth > 3 {
+				return
+			}
+			seen[f] = true
+			ast.Inspect(f.decl.Body, func(n ast.Node) bool {
+				var ch ast.Expr
+				kind := ""
+				switch t := n.(type) {
+				case *ast.SendStmt:
+					ch, kind = t.Chan, "send"
+				case *ast.UnaryExpr:
+					if t.Op == token.ARROW {
+						ch, kind = t.X, "recv"
+					}
+				case *ast.CallExpr:
+					if id, ok := t.Fun.(*ast.Ident); ok && id.Name == "close" && len(t.Args) == 1 {
+						ch, kind = t.Args[0], "close"
+					} else if fn := x.staticCallee(t); fn != nil && fn.Pkg() != nil && fn.Pkg().Path() == x.fn.pkgPath() {
+						if g := x.prog.funcs[funcKeyOf(fn)]; g != nil && g.decl.Body != nil && x.sp.Funcs[funcKeyOf(fn)] == nil {
+							scan(g, depth+1)
+						}
+					}
+				}
+				if ch != nil {
+					if ev, _ := x.findEvent(kind, ch); ev != nil && len(ev.Clauses) > 0 {
+						var tags []string
+						for _, c := range ev.Clauses {
+							for _, tg := range c.Tags {
+								if !hasTag(tags, tg) {
+									tags = append(tags, tg)
+								}
+							}
+						}
+						hooked++
+						x.broken(st, "ownership", fmt.Sprintf("go[%d:%s]:%s-%s-in-a-goroutine-without-contract", x.ordinal(s), lastName(key), kind, sane(types.ExprString(ch))), tags,
+							fmt.Sprintf("%s %s is performed by the goroutine started here (%s), which has no contract: its order relative to this goroutine's operations is undetermined", kind, types.ExprString(ch), key))
+					}
+				}
+				return true
+			})
+		}
+		scan(fi, 0)
+		x.anonGoroutines = append(x.anonGoroutines, x.fn.name()+" line "+x.line(s)+" (go "+lastName(key)+")")
+		st.note("go " + lastName(key) + " (no contract)")
+		_ = hooked
+		return
+	}
 	if spec == nil || fi == nil {
 		x.unsupported(s, "go "+key+" which has no contract")
 		return
@@ -570,6 +626,7 @@ func (x *Exec) inline(call *ast.CallExpr, fi *FuncInfo, st *State, k func(*State
 			return true
 		})
 		x.inlinedFuncs = append(x.inlinedFuncs, fi.name())
+		x.inlinedKeys = append(x.inlinedKeys, fi.key)
 	}
 	sig := fi.obj.Type().(*types.Signature)
 	var args []Val
@@ -608,26 +665,35 @@ func (x *Exec) inline(call *ast.CallExpr, fi *FuncInfo, st *State, k func(*State
 		return
 	}
 	savedSpec, savedDefers := x.spec, st.defers
+	savedInlineEntry := st.inlineEntry
+	st.inlineEntry = nil
+	st.inlineEntry = st.fork()
 	empty := &FuncSpec{Loops: map[int]*LoopSpec{}, Wraps: map[string]bool{}, Assumed: map[string]bool{}}
 	x.spec = empty
+	savedInlineKey := x.curInlineKey
+	x.curInlineKey = fi.key
 	x.inlineDepth++
 	st.defers = nil
 	st.note("inline " + fi.name())
 	ret := func(st *State, res []Val) {
 		x.runDefers(st, len(st.defers)-1, func(st *State) {
 			st.defers = savedDefers
+			st.inlineEntry = savedInlineEntry
 			x.spec = savedSpec
+			x.curInlineKey = savedInlineKey
 			x.inlineDepth--
 			st.note("end-inline")
 			k(st, res)
 			x.inlineDepth++
 			x.spec = empty
+			x.curInlineKey = fi.key
 		})
 	}
 	cx := &Ctx{onReturn: ret}
 	x.stmts(fi.decl.Body.List, st, cx, func(st *State) { ret(st, nil) })
 	x.inlineDepth--
 	x.spec = savedSpec
+	x.curInlineKey = savedInlineKey
 }
 
 // ------------------------------------------------------------------ loops
@@ -646,6 +712,16 @@ func (x *Exec) loop(s ast.Stmt, st *State, cx *Ctx, k func(*State)) {
 	var lspec *LoopSpec
 	if x.spec != nil {
 		lspec = x.spec.Loops[ord]
+		if ord >= 1000 {
+			// a loop of an inlined function: if that function has a contract that went stale (its
+			// signature changed), its loop invariants still belong to this loop
+			lspec = nil
+			if i := ord/1000 - 1; i < len(x.inlinedKeys) {
+				if fs := x.sp.Stale[x.inlinedKeys[i]]; fs != nil {
+					lspec = fs.Loops[ord%1000]
+				}
+			}
+		}
 	}
 	var body *ast.BlockStmt
 	var forS *ast.ForStmt
@@ -722,7 +798,11 @@ func (x *Exec) loop(s ast.Stmt, st *State, cx *Ctx, k func(*State)) {
 			if kind == "slice" || kind == "int" || kind == "map" {
 				b["$range"] = rangeVal
 			}
-			return &SEnv{x: x, st: st, old: x.entry, binds: b, pkg: x.fn.pkgPath(), own: true, pos: body.Lbrace + 1}
+			old := x.entry
+			if ord >= 1000 && st.inlineEntry != nil {
+				old = st.inlineEntry
+			}
+			return &SEnv{x: x, st: st, old: old, binds: b, pkg: x.fn.pkgPath(), own: true, pos: body.Lbrace + 1}
 		}
 		var invs []*Clause
 		if lspec != nil {
@@ -780,6 +860,30 @@ func (x *Exec) loop(s ast.Stmt, st *State, cx *Ctx, k func(*State)) {
 				x.unsupported(s, b)
 			}
 		}
+		// automatic invariants: a channel cached in a local / parameter that the loop does not assign
+		// still is what the expression it was read from yields (checked at entry and at the back
+		// edge like any invariant; it lets the event hooks recognise the cached channel inside the loop)
+		type autoInv struct {
+			obj types.Object
+			val Val
+		}
+		var autos []autoInv
+		{
+			var objs []types.Object
+			for o, v := range st.vars {
+				if v.Org == nil || ms.locals[o] {
+					continue
+				}
+				if _, isChan := types.Unalias(o.Type()).Underlying().(*types.Chan); isChan {
+					objs = append(objs, o)
+				}
+			}
+			sort.Slice(objs, func(a, b int) bool { return objs[a].Pos() < objs[b].Pos() })
+			for _, o := range objs {
+				autos = append(autos, autoInv{o, st.vars[o]})
+				x.oblige(st, "invariant", fmt.Sprintf("loop[%d]:auto-entry:%s", ord, o.Name()), []string{"*"}, x.originHolds(st, st.vars[o]))
+			}
+		}
 		pre := st.fork()
 		h := st
 		var locs []types.Object
@@ -829,6 +933,9 @@ func (x *Exec) loop(s ast.Stmt, st *State, cx *Ctx, k func(*State)) {
 			for _, p := range env.evalClause(c) {
 				h.assume(p.term)
 			}
+		}
+		for _, a := range autos {
+			h.assume(x.originHolds(h, a.val))
 		}
 		h.note(fmt.Sprintf("loop[%d]@%s:head", ord, x.line(s)))
 		outerPolls := h.polls
@@ -957,6 +1064,9 @@ func (x *Exec) loop(s ast.Stmt, st *State, cx *Ctx, k func(*State)) {
 			x.bePaths = append(x.bePaths, &bePath{ord: ord, line: x.line(s), pc: st.pc[:len(st.pc):len(st.pc)], polls: st.polls[:len(st.polls):len(st.polls)],
 				trail: st.trail[:len(st.trail):len(st.trail)], kind: lkind})
 			checkInvs(st, hid2, "inv-preserved")
+			for _, a := range autos {
+				x.oblige(st, "invariant", fmt.Sprintf("loop[%d]:auto-preserved:%s", ord, a.obj.Name()), []string{"*"}, x.originHolds(st, a.val))
+			}
 			x.paths++
 		}
 		// the enclosing loop's index and range value stay visible to the invariants of nested loops
@@ -1587,7 +1697,12 @@ func verifyFunc(w *World, sp *Specs, prog *Program, fi *FuncInfo, spec *FuncSpec
 	env := &SEnv{x: x, st: st, binds: map[string]Val{}, pkg: fi.pkgPath(), own: true, pos: fi.decl.Body.Lbrace + 1, entryParams: true}
 	for _, c := range spec.Clauses {
 		if c.Kind == "requires" && c.relevant(prop) {
-			for _, p := range env.evalClause(c) {
+			parts, bad := x.tryClause(env, c)
+			if bad != "" {
+				fmt.Printf("NOTE precondition of %s cannot be evaluated and is not assumed: %s\n", fi.name(), bad)
+				continue
+			}
+			for _, p := range parts {
 				st.assume(p.term)
 			}
 		}
@@ -1666,7 +1781,16 @@ func (x *Exec) atExit(st *State, res []Val) {
 			continue
 		}
 		n++
-		for _, p := range env.evalClause(c) {
+		parts, bad := x.tryClause(env, c)
+		if bad != "" {
+			lab := c.Label
+			if lab == "" {
+				lab = fmt.Sprint(n)
+			}
+			x.broken(st, "ensures", "ensures:"+lab, c.Tags, bad)
+			continue
+		}
+		for _, p := range parts {
 			x.oblige(st, "ensures", "ensures:"+p.label(n), p.tagsFor(c.Tags), p.term)
 		}
 	}
@@ -1752,7 +1876,15 @@ func (x *Exec) checkFrame(st *State) {
 			}
 			x.declare(init, cur.S)
 			if !ghostOK[name] {
-				x.oblige(st, "frame", "frame:"+name, frameTags, app("=", cur.T, init))
+				tags := frameTags
+				if d := envp.ghostDecl(strings.TrimPrefix(name, "g_")); d != nil {
+					for _, tg := range d.Tags {
+						if !hasTag(tags, tg) {
+							tags = append(tags[:len(tags):len(tags)], tg)
+						}
+					}
+				}
+				x.oblige(st, "frame", "frame:"+name, tags, app("=", cur.T, init))
 			}
 			continue
 		}
